@@ -63,6 +63,16 @@ def step (s : St) (ws : List String) : St × String :=
       -- a complete frame: start, (params in force), end
       let s' := { s with ctx := endFrame (startFrame s.ctx) }
       (s', dump ("ok " ++ facts s) s')
+  | ["c2", cap] =>
+      if s.kind != 'c' then (s, dump "bad-op" s) else
+      -- ZSTD_compress2: resets the session, compresses one frame with the parameters in force; a too-small
+      -- destination fails and leaves the frame unfinished; parameters are never changed
+      if cap == "1" then
+        let s' := { s with ctx := startFrame s.ctx }
+        (s', dump "err:other" s')
+      else
+        let s' := { s with ctx := endFrame s.ctx }
+        (s', dump "ok" s')
   | ["simple", _, _] =>
       if s.kind != 'c' then (s, dump "bad-op" s) else
       -- the simple API ignores every advanced parameter and leaves them untouched
